@@ -157,8 +157,8 @@ def partition_keyvalue(keys, data, start, end):
 '''
 
 T_PBAR = '''
-def pbar(iterable, desc='', total=None, leave=True, file=sys.stderr,
-         mininterval=0.5, miniters=1, n_bars=20, simple=False):
+def pbar(iterable, desc='', total=H_d_total, leave=H_d_leave, file=sys.stderr,
+         mininterval=H_d_mininterval, miniters=H_d_miniters, n_bars=H_d_n_bars, simple=H_d_simple):
     if H_dispatch:
         return sbar(iterable, desc=desc, total=total, file=file)
     else:
@@ -183,10 +183,10 @@ def _pbar_full(
     if simple:
         L_embedded_simple
     sp = StatusPrinter(file)
-    sp.print_status(prefix + format_meter(0, total, 0, n_bars=n_bars))
+    sp.print_status(prefix + format_meter(H_first_n, total, H_first_elapsed, n_bars=n_bars))
     start_t = last_print_t = time.time()
-    last_print_n = 0
-    n = 0
+    last_print_n = H_last0
+    n = H_n0
     for obj in iterable:
         L_body
     if not leave:
@@ -228,21 +228,21 @@ BODY_STMTS = [
     ("SCount", "i = H_i_step"),
     ("SDivTotal", "p = int(i / total * 10)"),
     ("SOut", "if p > plast:\n    pnn(p)\n    plast = p"),
-    ("SMeter", "if H_iter_test:\n    cur_t = time.time()\n    if cur_t - last_print_t >= mininterval:\n"
+    ("SMeter", "if H_iter_test:\n    cur_t = time.time()\n    if H_time_test:\n"
                "        pstat = format_meter(n, total, cur_t-start_t, n_bars=n_bars)\n"
-               "        sp.print_status(prefix + pstat)\n        last_print_n = n\n        last_print_t = cur_t"),
+               "        sp.print_status(prefix + pstat)\n        last_print_n = H_last_update\n        last_print_t = cur_t"),
 ]
 
 T_PRANGE = '''
 def prange(*args, **kwargs):
-    return pbar(range(*args), **kwargs)
+    return H_prange_expr
 '''
 
 T_PMAP = '''
-def pmap(fn, iterable, chunksize=1, nproc=1, **kw):
+def pmap(fn, iterable, chunksize=H_d_chunksize, nproc=H_d_nproc, **kw):
     from concurrent.futures import ProcessPoolExecutor
     with ProcessPoolExecutor(max_workers=nproc) as ex:
-        res = list(pbar(ex.map(fn, iterable, chunksize=chunksize), **kw))
+        res = H_pmap_expr
     return res
 '''
 
@@ -611,6 +611,59 @@ def _fallback(s, where):
     raise Untranslatable("%s: handler of `except TypeError` is neither `total = None` nor a raise: %s" % (where, ast.unparse(s)))
 
 
+def wexpr(e, kwname, where):
+    """the wrapper expression of prange / pmap as a term of C20/Shape.v's `wexpr` (fail closed on anything else)"""
+    def forwards_kw(call):
+        return len(call.keywords) == 1 and call.keywords[0].arg is None and isinstance(call.keywords[0].value, ast.Name) \
+            and call.keywords[0].value.id == kwname
+    if isinstance(e, ast.Name) and e.id == "iterable":
+        return "WArgIterable"
+    if isinstance(e, ast.Call) and isinstance(e.func, ast.Name):
+        f = e.func.id
+        if f == "range" and not e.keywords and len(e.args) == 1 and isinstance(e.args[0], ast.Starred) \
+                and isinstance(e.args[0].value, ast.Name) and e.args[0].value.id == "args":
+            return "WRangeOfArgs"
+        if f == "list" and not e.keywords and len(e.args) == 1:
+            return "(WList %s)" % wexpr(e.args[0], kwname, where)
+        if f == "pbar" and len(e.args) == 1 and forwards_kw(e):
+            return "(WPbar %s)" % wexpr(e.args[0], kwname, where)
+    if isinstance(e, ast.Call) and ast.unparse(e.func) == "ex.map" and len(e.args) == 2 and ast.unparse(e.args[0]) == "fn":
+        if not e.keywords:
+            ck = "ChunkDefault"
+        elif len(e.keywords) == 1 and e.keywords[0].arg == "chunksize" and ast.unparse(e.keywords[0].value) == "chunksize":
+            ck = "ChunkParam"
+        else:
+            raise Untranslatable("%s: keywords of ex.map: %s" % (where, ast.unparse(e)))
+        return "(WExMap %s %s)" % (ck, wexpr(e.args[1], kwname, where))
+    raise Untranslatable("%s: wrapper expression not recognised: %s" % (where, ast.unparse(e)[:100]))
+
+
+def const_bool(e, where):
+    if isinstance(e, ast.Constant) and isinstance(e.value, bool):
+        return "true" if e.value else "false"
+    raise Untranslatable("%s: boolean literal expected, found %s" % (where, ast.unparse(e)))
+
+
+def const_z(e, where):
+    if isinstance(e, ast.Constant) and type(e.value) is int:
+        return "(%d)" % e.value
+    raise Untranslatable("%s: integer literal expected, found %s" % (where, ast.unparse(e)))
+
+
+def const_optz(e, where):
+    if isinstance(e, ast.Constant) and e.value is None:
+        return "None"
+    return "(Some %s)" % const_z(e, where)
+
+
+def const_ratio(e, where):
+    from fractions import Fraction
+    if isinstance(e, ast.Constant) and type(e.value) in (int, float) and e.value == e.value and abs(e.value) != float("inf"):
+        f = Fraction(e.value)
+        return "((%d), (%d))" % (f.numerator, f.denominator)
+    raise Untranslatable("%s: numeric literal expected, found %s" % (where, ast.unparse(e)))
+
+
 METER_PARAMS = {"n": "MN", "total": "MTotal", "elapsed": "MElapsed"}
 
 
@@ -676,6 +729,11 @@ def gen_pbar(tree):
     out = ""
     h = match_function(tree, T_PBAR)
     out += definition("gen_dispatch_simple", [("simple", "bool")], "bool", bexpr(h["H_dispatch"], {"simple": "bool"}))
+    out += ("Definition gen_pbar_defaults : pbar_defaults :=\n  {| d_total := %s; d_leave := %s; d_mininterval := %s; d_miniters := %s;"
+            " d_n_bars := %s; d_simple := %s |}.\n\n" % (
+                const_optz(h["H_d_total"], "pbar total="), const_bool(h["H_d_leave"], "pbar leave="),
+                const_ratio(h["H_d_mininterval"], "pbar mininterval="), const_z(h["H_d_miniters"], "pbar miniters="),
+                const_z(h["H_d_n_bars"], "pbar n_bars="), const_bool(h["H_d_simple"], "pbar simple=")))
     hf = match_function(tree, T_FULL)
     kinds, bh = _classify_body(hf["L_body"], "_pbar_full")
     out += "Definition gen_full_skel : bar_skel :=\n  {| sk_fallback := %s; sk_body := [%s] |}.\n\n" % (
@@ -687,6 +745,14 @@ def gen_pbar(tree):
     out += definition("gen_full_iter_test", [("n", "Z"), ("last_print_n", "Z"), ("miniters", "Z")], "bool",
                       bexpr(bh["H_iter_test"], env))
     out += definition("gen_full_final_test", [("n", "Z"), ("last_print_n", "Z")], "bool", bexpr(hf["H_final_test"], env))
+    if "H_time_test" not in bh or "H_last_update" not in bh:
+        raise Untranslatable("_pbar_full: the meter update has no time test / no update of last_print_n")
+    tenv = {"cur_t": "Z", "last_print_t": "Z", "mininterval": "Z"}
+    out += definition("gen_full_time_test", [("cur_t", "Z"), ("last_print_t", "Z"), ("mininterval", "Z")], "bool",
+                      bexpr(bh["H_time_test"], tenv))
+    out += definition("gen_full_last_update", [("n", "Z")], "Z", zexpr(bh["H_last_update"], {"n": "Z"}))
+    out += "Definition gen_full_first_meter : Z * Z := (%s, %s).\n\n" % (zexpr(hf["H_first_n"], {}), zexpr(hf["H_first_elapsed"], {}))
+    out += "Definition gen_full_init : Z * Z := (%s, %s).\n\n" % (zexpr(hf["H_n0"], {}), zexpr(hf["H_last0"], {}))
     hs = match_function(tree, T_SBAR)
     kinds, bh = _classify_body(hs["L_body"], "sbar")
     out += "Definition gen_sbar_skel : bar_skel :=\n  {| sk_fallback := %s; sk_body := [%s] |}.\n\n" % (
@@ -694,8 +760,12 @@ def gen_pbar(tree):
     if "H_i_step" not in bh:
         raise Untranslatable("sbar: the loop body has no counter step")
     out += definition("gen_sbar_i_step", [("i", "Z")], "Z", zexpr(bh["H_i_step"], {"i": "Z"}))
-    match_function(tree, T_PRANGE)
-    match_function(tree, T_PMAP)
+    hpr = match_function(tree, T_PRANGE)
+    out += "Definition gen_prange_expr : wexpr := %s.\n\n" % wexpr(hpr["H_prange_expr"], "kwargs", "prange")
+    hpm = match_function(tree, T_PMAP)
+    out += "Definition gen_pmap_expr : wexpr := %s.\n\n" % wexpr(hpm["H_pmap_expr"], "kw", "pmap")
+    out += "Definition gen_pmap_defaults : Z * Z := (%s, %s).\n\n" % (const_z(hpm["H_d_chunksize"], "pmap chunksize="),
+                                                                   const_z(hpm["H_d_nproc"], "pmap nproc="))
     hst = match_function(tree, T_STATUS, cls=True)
     pad = copy.deepcopy(hst["H_pad"])
     for x in ast.walk(pad):          # len(s) -> len_s
@@ -733,7 +803,7 @@ HEADER = """(* GENERATED by harness/props/c20_translate.py from esutil/algorithm
    esutil/pbar.py of the tree under check -- do not edit.  Rewritten on every run of ./check C20;
    C20/Tie.v proves that every definition below equals the hand model for all inputs. *)
 From EsVerif.Common Require Import Base.
-From EsVerif.C20 Require Import Model Model2 Meter.
+From EsVerif.C20 Require Import Model Model2 Meter Shape.
 
 """
 
